@@ -63,6 +63,8 @@ func runC12(c *Ctx) {
 		fns = append(fns, fn)
 	}
 	ruleInputImmutable(c, "R-INPUT-IMMUTABLE", fns)
+	ruleCounterWidth(c, fns)
+	ruleLCSDiagonal(c)
 
 	// ---- R-LEAN-AGREE
 	lean := func(callee *ssa.Function) (string, string) {
